@@ -4,6 +4,9 @@
 #   tools/stress_parallel.sh [N=3] [first_seed=11]
 N="${1:-3}"; S0="${2:-11}"
 cd "$(dirname "$0")/.."
+# a snapshot of the harness, so that edits made meanwhile do not break the builds
+rsync -rlp --checksum --delete --exclude 'target-*' --exclude '.build-*' harness/ /var/tmp/stress-harness/
+export VERIF_HARNESS_DIR=/var/tmp/stress-harness VERIF_DEV=1
 for k in $(seq 1 "$N"); do
   ( export VERIF_STATE_DIR=/var/tmp/stress-$k VERIF_SEED=$((S0 + k)); mkdir -p $VERIF_STATE_DIR/evidence $VERIF_STATE_DIR/replays
     for p in $(python3 -c "import json;print(' '.join(c['property_id'] for c in json.load(open('MANIFEST.json'))['checks']))"); do
